@@ -46,6 +46,12 @@ def budget(tier):
 def _cases(draw, tier):
     diff = pct(draw) < 12
     pc = pct(draw) < 35
+    # solve() arguments the brute-force path has no use for: the optima must not depend on them
+    limit = draw(st.sampled_from([None, None, None, None, 0, 1e-06, 5, 3600]))
+    if pct(draw) < 6:
+        inst = draw(strategies.load_conflict_instances())
+        return {'inst': inst, 'pc': pct(draw) < 85, 'twopl': False, 'diff': False,
+                'limit': limit}
     shape = draw(st.sampled_from(['mix', 'contention', 'contention', 'few_students_long_lists',
                                   'few_students_long_lists', 'few_students_long_lists',
                                   'only_empty', 'many_projects', 'tied_exact']))
@@ -97,7 +103,7 @@ def _cases(draw, tier):
             inst['lt'] = [0] * inst['n2']
             inst['llq'] = [0] * inst['n2']
     twopl = inst['lprefs'] is not None and pct(draw) < 80
-    return {'inst': inst, 'pc': pc, 'twopl': twopl, 'diff': diff}
+    return {'inst': inst, 'pc': pc, 'twopl': twopl, 'diff': diff, 'limit': limit}
 
 
 def exhaustive(tier):
@@ -201,7 +207,11 @@ def run_case(case):
     argv = ['-f', path, '-na', str(inst['na'])] + ['-twopl'] * case['twopl'] + \
         ['-pc'] * case['pc'] + ['-bf']
     solver = solverio.make_solver(argv)
-    call_repo('solve()', solver.solve)
+    if case.get('limit') is None:
+        call_repo('solve()', solver.solve)
+    else:
+        call_repo('solve()', solver.solve, msg=False, timeLimit=case['limit'], threads=None,
+                  write=False)
     out = restext.parse_bf(call_repo('get_results()', solver.get_results))
     o = refmodel.Oracle(inst, case['twopl'], case['pc'])
     valid = [M for M in o.assignments() if o.valid(M)]
@@ -211,6 +221,13 @@ def run_case(case):
               'maxrank>n1' if o.maxrank > o.n1 else 'maxrank<=n1']
     if o.n2 >= 10:
         labels.append('two_digit_ids')
+    if case.get('limit') is not None:
+        labels.append('solve_with_time_limit')
+    if valid:
+        dv = [o.absdiffs(M) for M in valid]
+        mx, sm = min(max(x or [0]) for x in dv), min(sum(x) for x in dv)
+        if not any(max(x or [0]) == mx and sum(x) == sm for x in dv):
+            labels.append('max_and_total_deviation_need_different_matchings')
     if not valid:
         if not out['infeasible']:
             raise Violation('infeasible_not_reported', 'no valid matching exists but brute force '
